@@ -22,6 +22,21 @@ def followed_by_label(tier):
             head = [("config", "BITS", ("num", 32))] if mode == 32 else []
             prog = head + [("mn", "ORG", [A.hexn(0x7c00)]), st, ("label", "after"), ("mn", "DW" if mode == 16 else "DD", [A.ident("after")])]
             out.append((prog, dict(tags, kind="stmt+label"), mode, st))
+    # branches followed by a label: pass 1 sizes them with a fixed estimate (16-bit: JMP/Jcc 2, CALL 3, numeric target 3;
+    # 32-bit: 5/6), codegen picks the form from the distance
+    for mode in (16, 32):
+        head = [("config", "BITS", ("num", 32))] if mode == 32 else []
+        tab = ("mn", "DW" if mode == 16 else "DD", [A.ident("after"), A.ident("tgt")])
+        for name in ("JMP", "JE", "JNLE", "CALL"):
+            dists = [0, 1, 100, 124, 125, 126, 127, 128, 129, 130, 200, 40000] if tier == "thorough" or name in ("JMP", "JE") else [0, 126, 127, 200]
+            for n in dists:
+                back = head + [("mn", "ORG", [A.hexn(0x7c00)]), ("label", "tgt"), ("mn", "RESB", [A.num(n)]), ("mn", name, [A.ident("tgt")]), ("label", "after"), tab]
+                out.append((back, {"kind": "branch+label", "form": "branch", "branch": (name, "bwd", n)}, mode, back[-3]))
+                fwd = head + [("mn", "ORG", [A.hexn(0x7c00)]), ("mn", name, [A.ident("tgt")]), ("label", "after"), ("mn", "RESB", [A.num(n)]), ("label", "tgt"), tab]
+                out.append((fwd, {"kind": "branch+label", "form": "branch", "branch": (name, "fwd", n)}, mode, fwd[len(head) + 1]))
+            for t in (0x7c00, 0x7c40, 0x7d00, 0xc200, 0x17c00):
+                num = head + [("mn", "ORG", [A.hexn(0x7c00)]), ("mn", name, [A.hexn(t)]), ("label", "after"), ("mn", "DW" if mode == 16 else "DD", [A.ident("after")])]
+                out.append((num, {"kind": "branch+label", "form": "branch", "branch": (name, "num", t - 0x7c00)}, mode, num[len(head) + 1]))
     for d in ("DB", "DW", "DD"):
         for n in (1, 2, 7):
             prog = [("mn", "ORG", [A.hexn(0xc200)]), ("mn", d, [A.num(k) for k in range(n)]), ("label", "after"), ("mn", "DW", [A.ident("after"), A.ident("$")])]
@@ -33,8 +48,27 @@ def followed_by_label(tier):
     return out
 
 
+def branch_size_mismatch(br, mode):
+    """does pass 1's fixed estimate differ from the length of the form codegen picks? (16-bit mode only)"""
+    name, direction, n = br
+    kind = "JMP" if name == "JMP" else "CALL" if name == "CALL" else "JCC"
+    if mode == 32:
+        return False
+    est = 3 if (kind == "CALL" or direction == "num") else 2
+    rel = {"bwd": -n, "fwd": est + n, "num": n}[direction]
+    if kind == "CALL":
+        emitted = 3 if -32768 <= rel - 3 <= 32767 else 6
+    else:
+        d8 = rel - 2
+        short, near, far = (2, 3, 6) if kind == "JMP" else (2, 4, 7)
+        emitted = short if -128 <= d8 <= 127 else near if -32768 <= d8 <= 32767 else far
+    return emitted != est
+
+
 def size_class(tags, mode, st, p):
     """finding classes for pass-1 size estimate != emitted length (label drift)"""
+    if tags.get("branch"):
+        return "C03-bits16-branch-size-estimate" if branch_size_mismatch(tags["branch"], mode) else None
     c = x86class.classify(tags, mode, st)
     if c:
         return c
@@ -86,7 +120,7 @@ def run(v, tier, rng):
             byclass["outside"] = byclass.get("outside", 0) + 1
             continue
         w = {"source": cases[i]["srcs"][0], "statement_index": code // 100, "code": c, "why": why.get(c), "image": res[str(i)]["calls"][0]["out"][:400]}
-        cl = size_class(tags, mode, st, p) if st is not None else ("C03-bits32-jump-size" if tags.get("jumps32") else None)
+        cl = size_class(tags, mode, st, p) if st is not None else None
         byclass[str(cl)] = byclass.get(str(cl), 0) + 1
         if cl:
             v.finding(cl, w)
